@@ -48,6 +48,9 @@ CLAIMS = {
  "C03": ("Generated payloads, chunkings, finish orders (who half-closes first, data after the other side's EOF), peer counts, transports and reset faults through the real proxy handler on loopback TCP / Unix sockets / TLS; every peer and the client are compared byte for byte with what was sent, end-of-stream, handler return, upstream close and file-descriptor restoration are observed with bounded waits.",
          "Kernel sockets and crypto/tls as transports; disjoint byte alphabets per peer to separate the interleaved client-side stream; bounded waits (10 s) stand for 'eventually'.",
          "property-based testing (rapid) with generated fault injection; exact-stream oracle"),
+ "C11": ("Generated settings and histories (connects, sleeps, outages and recoveries, held connections) executed in real time against the proxy handler with loopback listeners that refuse or accept; a model of remembered failure times, retry-window bounds, active-check convergence and connection-limit occupancy is compared with outcomes and peer counters, away from window edges.",
+         "Real clock (guard band 80 ms around window edges, slack >= 1 s on upper bounds); peer counters through an overlay shim; a closed loopback port as an upstream that is down.",
+         "property-based testing (rapid) over histories with fault injection; reference model of failure windows and limits"),
 }
 NOT_YET = "check not built yet in this session (planned, see DESIGN.md); not claimed until it is"
 
